@@ -15,7 +15,8 @@ RULE = ("Token streams obtained by walking (etree and dom walkers - the dom buil
         "elements (pre > b > text, textarea, script, style, xmp...). Oracle (vf model): between two non-text tokens the concatenated text outside pre/textarea/raw-text elements "
         "must equal the concatenated input with every maximal run of [\\t\\n\\f\\r ] replaced by one space; inside those elements it must be identical; every non-text token "
         "is passed through unchanged and in order; applying the filter twice equals applying it once; the filter applied to the live walker gives the same tokens as "
-        "applied to a copy of the walker's tokens, and a second walk of the tree is unchanged by it. Text inside title, plaintext, listing and foreign namesakes of "
+        "applied to a copy of the walker's tokens, and a second walk of the tree is unchanged by it; HTMLSerializer(strip_whitespace=True, other options) writes what it writes "
+        "for the hand-filtered stream (so the filter sees the stream before the serializer's other filters drop or rewrite tags). Text inside title, plaintext, listing and foreign namesakes of "
         "style/script/title is not judged (the statement does not decide them). Non-trivial = some judged text group contains a run of >= 2 whitespace characters or a "
         "non-space whitespace character; distinct = distinct (group texts) signature.")
 ASSUMPTIONS = ["'text' = a maximal sequence of Characters/SpaceCharacters tokens between two other tokens",
@@ -111,8 +112,39 @@ def check_stream(tokens):
     return Verdict("pass", nontrivial=nontrivial, sig=sig)
 
 
+def check_serializer(case):
+    """HTMLSerializer(strip_whitespace=True) must be the whitespace filter applied to the walker's stream: the same output as
+    feeding the serializer (same other options) the hand-filtered stream.  (The filter counts open elements, so it has to
+    see the stream before tags are dropped or rewritten by the serializer's other filters.)"""
+    import warnings
+    from html5lib.filters.whitespace import Filter
+    from html5lib.serializer import HTMLSerializer
+    text, walker, opts = case["text"], case.get("walker", "etree"), dict(case.get("opts") or {})
+    try:
+        r, p = h5.parse(text, builder=walker, container=case.get("container"), full_tree=True)
+        if any(t["type"] == "SerializeError" for t in h5.walk(r, walker)):
+            return Verdict("excluded", finding="walker error token (C11 known finding)")
+    except Exception as e:
+        return Verdict("excluded", finding="parse/walk raised %s (C03/C11's subject)" % type(e).__name__)
+    with warnings.catch_warnings():
+        warnings.simplefilter("ignore")
+        try:
+            a = HTMLSerializer(strip_whitespace=True, **opts).render(h5.walk(r, walker))
+            b = HTMLSerializer(strip_whitespace=False, **opts).render(Filter(h5.walk(r, walker)))
+        except Exception as e:
+            return Verdict("fail", "serializer raised %r on %s" % (e, short(text, 160)), "serializer-exception:" + type(e).__name__, nontrivial=True)
+    nontrivial = bool(re.search("[\t\n\x0c\r ]{2,}|[\t\n\x0c\r]", text)) and ("<pre" in text or "<textarea" in text)
+    if a != b:
+        k = next((i for i, (x, y) in enumerate(zip(a, b)) if x != y), min(len(a), len(b)))
+        return Verdict("fail", "HTMLSerializer(strip_whitespace=True, %s) differs from serializing the hand-filtered stream at offset %d: %s vs %s; input %s"
+                       % (opts, k, short(a[max(0, k - 30):k + 40], 100), short(b[max(0, k - 30):k + 40], 100), short(text, 200)), "serializer-strip-differs", nontrivial=True)
+    return Verdict("pass", nontrivial=nontrivial, sig=sig64("ser", a, sorted(opts.items())), classes=["serializer-level"])
+
+
 @guarded(40)
 def check_case(case):
+    if case.get("kind") == "serializer":
+        return check_serializer(case)
     if "tokens" in case:
         return check_stream(case["tokens"])
     text, container, walker = case["text"], case.get("container"), case.get("walker", "etree")
@@ -144,7 +176,8 @@ def check_case(case):
 _WS = st.sampled_from([" ", "  ", "\n", "\t", "\x0c", "\r\n", " \n ", "&#32;", "&#9;", "&#10; ", " &#32; ", "\xa0", " ", " ", "a", "b c", "x  y", " x ", "&amp;", "&lt; "])
 _WRAP = st.sampled_from(["<pre>%s<br>%s</pre>", "<pre>%s<img>%s<b>%s</b>%s</pre>", "<pre><b>%s</b>%s</pre>", "<textarea>%s</textarea>%s", "<pre>%s<hr>%s<input>%s</pre>%s", "<pre>%s</pre>", "<p>%s</p>", "<textarea>%s</textarea>", "<pre><b>%s</b> </pre>", "<script>%s</script>", "<style>%s</style>", "<xmp>%s</xmp>",
                          "<div> %s </div>", "<span>%s</span> ", "<b> %s<i> </i></b>", "<table> <tr> <td> %s </table>", "<svg><style>%s</style></svg>", "<title>%s</title>",
-                         "<pre><pre>%s</pre>%s</pre>", "<noscript>%s</noscript>", "<ul> <li> %s </ul>", "%s<br>%s", "<!--c-->%s", "<pre>%s<textarea>%s</textarea>%s</pre>", "<iframe>%s</iframe>"])
+                         "<pre><pre>%s</pre>%s</pre>", "<pre><p>%s</pre><div>%s</div>", "<pre><table><colgroup><col></colgroup> </table>%s</pre>%s", "<pre><ul><li>%s</ul>%s</pre>%s",
+                         "<pre><dl><dt>%s<dd>%s</dl></pre>%s", "<textarea>%s</textarea><ul><li>%s<li>%s</ul>", "<pre><table><tr><td>%s</table>%s</pre> %s", "<noscript>%s</noscript>", "<ul> <li> %s </ul>", "%s<br>%s", "<!--c-->%s", "<pre>%s<textarea>%s</textarea>%s</pre>", "<iframe>%s</iframe>"])
 
 
 @st.composite
@@ -162,11 +195,28 @@ def _texts(draw):
 
 def shards(tier):
     quick = tier == "quick"
-    return [{"kind": "hyp", "n": 3000 if quick else 40000} for _ in range(16)]
+    return [{"kind": "hyp", "n": 3000 if quick else 40000} for _ in range(16)] + [{"kind": "long"}] + [{"kind": "serializer", "n": 1500 if quick else 20000} for _ in range(2)]
 
 
 def run_shard(desc, seed, tier):
     acc = Acc()
+    if desc["kind"] == "long":
+        for text in soup.long_docs():
+            for walker in ("etree", "dom"):
+                case = {"text": text, "container": None, "walker": walker, "scripting": False}
+                acc.add(case, check_case(case))
+        return acc
+
+    if desc["kind"] == "serializer":
+        so = st.fixed_dictionaries({"omit_optional_tags": st.booleans(), "sanitize": st.booleans(), "alphabetical_attributes": st.booleans(),
+                                    "quote_attr_values": st.sampled_from(["legacy", "always"])})
+
+        def fs(x):
+            text, container, walker, o = x
+            case = {"kind": "serializer", "text": text, "container": container, "walker": walker, "opts": o}
+            acc.add(case, check_case(case))
+        drive(st.tuples(_texts(), st.one_of(st.none(), st.none(), st.sampled_from(["div", "pre", "td"])), st.sampled_from(["etree", "dom"]), so), fs, desc["n"], seed)
+        return acc
     strat = st.tuples(_texts(), st.one_of(st.none(), st.none(), st.sampled_from(["div", "pre", "td", "textarea", "p"])), st.sampled_from(["etree", "dom"]), st.booleans())
 
     def fn(x):
